@@ -198,3 +198,33 @@ package kvcache
 //@   assert-at return #1 : err != nil
 //@   ensures result == nil ==> c.curType == 0
 //@   loop 2 invariant -1 <= j && j < i
+
+// ---- DRAFTS, not in force (plain comments). (1) moveCells body clauses: discharge, but the engine cannot verify the body of a
+// ---- function whose ghost-array postcondition is trusted (see props/C06.json not_decided). (2) StartForward 'touches nothing else'
+// ---- by arbitrary witnesses: cell half undecided under load.
+// The body IS verified (listed in props; the ghost row effect above stays the trusted part, A-rows): for every layer the
+// source views start at row src, the destination views at row dst (byte offset = machine product stride*row, pinned for
+// strides up to 2^30), source and destination are views of the SAME tensor (key / the layer's value tensor), they span
+// `length` rows, and the copy goes from the source view (receiver) to the destination view.
+// @   assert-at call View #1 : arg0 == key && len(arg3) == 1 && (0 <= rowSize && rowSize <= 1073741824 ==> arg2 == rowSize * src) && (kHeadDim == 1 && numKVHeads == 1 ==> arg3[0] == length)
+// @   assert-at call View #2 : arg0 == key && len(arg3) == 1 && (0 <= rowSize && rowSize <= 1073741824 ==> arg2 == rowSize * dst) && (kHeadDim == 1 && numKVHeads == 1 ==> arg3[0] == length)
+// @   assert-at call View #3 : arg0 == value && len(arg3) == 3 && arg3[0] == length && (0 <= elemSize && elemSize <= 1073741824 ==> arg2 == elemSize * src) && (elemSize == 1 ==> arg3[1] == len(c.cells))
+// @   assert-at call View #4 : arg0 == value && len(arg3) == 3 && arg3[0] == length && (0 <= elemSize && elemSize <= 1073741824 ==> arg2 == elemSize * dst) && (elemSize == 1 ==> arg3[1] == len(c.cells))
+// @   assert-at call View #5 : arg0 == value && len(arg3) == 1 && (0 <= rowSize && rowSize <= 1073741824 ==> arg2 == rowSize * src) && (vHeadDim == 1 && numKVHeads == 1 ==> arg3[0] == length)
+// @   assert-at call View #6 : arg0 == value && len(arg3) == 1 && (0 <= rowSize && rowSize <= 1073741824 ==> arg2 == rowSize * dst) && (vHeadDim == 1 && numKVHeads == 1 ==> arg3[0] == length)
+// @   assert-at call Copy #1 : arg0 == kSrcView && arg2 == kDstView
+// @   assert-at call Copy #2 : arg0 == vSrcView && arg2 == vDstView
+
+// The metadata loop touches nothing else ("nothing from removed ranges ... nothing missing" for the entries already cached):
+// for an ARBITRARY cell wcell(0) outside the run being filled and an ARBITRARY sequence wseq(0) (uninterpreted constants, so the
+// facts hold for all of them), position and membership are what they were when placement started (after eviction/defrag),
+// and the range of a sequence that does not occur in the batch is what it was. ghost_w*: snapshot taken before the loop.
+// @   ghost-at after call newRange #1 : ghost_wpos := c.cells[wcell(0)].pos
+// @   ghost-at after call newRange #1 : ghost_win := ite(inseq(c.cells[wcell(0)].sequences, wseq(0)), 1, 0)
+// @   ghost-at after call newRange #1 : ghost_rhas := ite(has(c.cellRanges, wseq(0)), 1, 0)
+// @   ghost-at after call newRange #1 : ghost_rmin := c.cellRanges[wseq(0)].min
+// @   ghost-at after call newRange #1 : ghost_rmax := c.cellRanges[wseq(0)].max
+// @   loop 1 invariant 0 <= wcell(0) && wcell(0) < len(c.cells) && (wcell(0) < c.curLoc || c.curLoc + len(batch.Positions) <= wcell(0)) ==> c.cells[wcell(0)].pos == ghost_wpos && (inseq(c.cells[wcell(0)].sequences, wseq(0)) <==> ghost_win == 1)
+// @   loop 1 invariant (forall k int :: 0 <= k && k <= rangeindex ==> batch.Sequences[k] != wseq(0)) ==> (has(c.cellRanges, wseq(0)) <==> ghost_rhas == 1) && c.cellRanges[wseq(0)].min == ghost_rmin && c.cellRanges[wseq(0)].max == ghost_rmax
+// @   assert-at call buildMask #1 : !reserve && 0 <= wcell(0) && wcell(0) < len(c.cells) && (wcell(0) < c.curLoc || c.curLoc + len(batch.Positions) <= wcell(0)) ==> c.cells[wcell(0)].pos == ghost_wpos && (inseq(c.cells[wcell(0)].sequences, wseq(0)) <==> ghost_win == 1)
+// @   assert-at call buildMask #1 : !reserve && (forall k int :: 0 <= k && k < len(batch.Positions) ==> batch.Sequences[k] != wseq(0)) ==> (has(c.cellRanges, wseq(0)) <==> ghost_rhas == 1) && c.cellRanges[wseq(0)].min == ghost_rmin && c.cellRanges[wseq(0)].max == ghost_rmax
